@@ -9,6 +9,13 @@ written from a defect that was demonstrated on the pinned tree and repaired:
  (R2) NULL semantics of the NOT IN -> anti join rewrite: in try_convert_in_to_join the join condition built on the
       `negated` path is `x = s OR x IS NULL OR s IS NULL` (two IS NULL tests, one per operand, combined with OR): an anti
       join on `x = s` alone returns rows although the subquery yields a NULL, and rows whose x is NULL;
+ (R2') in the same function the subquery's own WHERE clause is AND-ed to the WHOLE NULL-aware condition
+      ((x = s OR x IS NULL OR s IS NULL) AND p), never to the equality alone: the And node's left operand has the OR form
+      as an alternative and no Or node has an And operand;
+ (R4) "common to ALL branches": analyze_or_equi_join looks for an equi-join that every OR branch carries; its loop over
+      the branches pushes one entry per branch onto branch_equijoins or leaves the function - an iteration that skips the
+      push lets a branch without a key drop out of the comparison, and the hash join then loses the rows only that
+      branch accepts;
  (R3) NOT EXISTS is not decorrelated to NOT IN: in the subquery rewriter the call of rewrite_exists_to_in is reachable
       only on the `negated == false` side (NOT IN and NOT EXISTS differ under NULLs).
 Does NOT decide join-order independence, the hash / nested-loop agreement on values, nor the semi-join rewrites of
@@ -97,3 +104,66 @@ def run(ctx):
         if not guarded:
             ctx.finding(f'R3/{f.nice.rsplit("::", 1)[1]}', f'{f.nice} decorrelates NOT EXISTS to NOT IN: with a NULL in the inner key the predicate is never TRUE and with '
                         'a NULL outer key it is UNKNOWN, where NOT EXISTS is TRUE in both cases', f'{f.file}:{t["l"]}')
+
+    # ------------------------------------------------------------------ R2' the subquery WHERE is AND-ed to the whole condition
+    ctx.rule("C05.R2'", 'try_convert_in_to_join: And(join_condition, subquery_where) takes the NULL-aware OR form as its left operand on the negated path; '
+             'no Or node is built over an And node')
+    ands = []; or_over_and = False
+    for bi, b in enumerate(g.blocks):
+        for st in b['s']:
+            if 'd' in st and st['v']['r'] == 'agg' and str(st['v'].get('adt', '')).endswith('::Expression') and st['v'].get('variant') == 'BinaryOp':
+                ops_ = [sg.op(o) for o in st['v'].get('ops', [])]
+                if ops_ and ops_[0].startswith('And('):
+                    ands.append(ops_)
+                if ops_ and ops_[0].startswith('Or(') and any('And()' in o for o in ops_[1:]):
+                    or_over_and = True
+    left_has_or = any('Or()' in o[1] for o in ands if len(o) > 1)
+    ctx.instance("R2'/try_convert_in_to_join", {'rule': "C05.R2'", 'and_nodes': len(ands), 'and_left_operand_contains_the_or_form': left_has_or, 'or_over_and': or_over_and})
+    if ands and (not left_has_or or or_over_and):
+        ctx.finding("R2'/where-inside-the-null-aware-condition", 'try_convert_in_to_join attaches the subquery\'s WHERE clause to the equality instead of to the whole '
+                    'NULL-aware condition ((x = s AND p) OR x IS NULL OR s IS NULL): a row that p filters out but whose s is NULL still blocks every outer row, and a '
+                    'NULL x is dropped although p empties the subquery', g.loc)
+
+    # ------------------------------------------------------------------ R4 one entry per OR branch
+    from ..engine.paths import loop_headers
+    from ..engine.linear import Encoder
+    ctx.rule('C05.R4', 'analyze_or_equi_join: every iteration of the loop over the OR branches either returns or pushes onto branch_equijoins')
+    ao = ctx.fn(EX + 'select::join::join_analyzer::analyze_or_equi_join')
+    so = Sym(ao); go = cfg(ao); eo = Encoder(prog, ao)
+    checked = 0
+    from ..engine.cfg import defs_of
+    dao = defs_of(ao)
+
+    from ..engine.cfg import op_local
+
+    def var_of(op, depth=0):
+        """name of the user variable an operand refers to; the hidden loop variable `iter` is traced back through into_iter(..)"""
+        l, nm = shared.named_root(ao, dao, op)
+        if nm and nm != 'iter':
+            return nm
+        if depth > 6:
+            return nm
+        start = l if l is not None else (op_local(op) if isinstance(op, dict) else None)
+        for dd in dao.get(start, []):
+            if dd[1] == 'assign' and dd[2]['r'] == 'use':
+                return var_of(dd[2]['a'], depth + 1)
+            if dd[1] == 'call' and dd[2]['args']:
+                return var_of(dd[2]['args'][0], depth + 1)
+        return nm
+    for h, (sw, none_t) in loop_headers(ao).items():
+        root = var_of(ao.blocks[h]['t']['args'][0]) or ''
+        if root != 'or_branches':
+            continue
+        body = shared._body(eo, h)
+        pushes = [i for i in body if ao.blocks[i]['t']['k'] == 'call' and (callee_name(ao.blocks[i]['t']) or '').endswith('::push')
+                  and var_of(ao.blocks[i]['t']['args'][0]) == 'branch_equijoins']
+        ctx.require(pushes, 'analyze_or_equi_join: push onto branch_equijoins not found in the loop over the OR branches')
+        checked += 1
+        some_t = [x for x in go.succ[sw] if x != none_t and not ao.blocks[x]['t'].get('cleanup')]
+        reach = go.reach_from(some_t, removed=set(pushes) | {h})
+        skipped = any(h in go.succ[b] for b in reach if b in body)
+        ctx.instance('R4/analyze_or_equi_join', {'rule': 'C05.R4', 'loop_over': root[:60], 'pushes_in_loop': len(pushes), 'iteration_can_skip_the_push': skipped})
+        if skipped:
+            ctx.finding('R4/analyze_or_equi_join', 'analyze_or_equi_join can finish an iteration over an OR branch without recording it: a branch without an equi-join '
+                        'no longer prevents the hash join on the key of the other branches, and the rows that only that branch accepts are lost', ao.loc)
+    ctx.floor('C05.R4 loops over the OR branches', checked, 1)
